@@ -478,9 +478,6 @@ func (e *SimEC2) CreateFleet(in *ec2.CreateFleetInput) (*ec2.CreateFleetOutput, 
 	}
 	c.Ok = true
 	s.J.Add(c)
-	if s.J.SlowFn != nil && s.J.HitOnce("slow", g) { // the instances take one tick to boot
-		s.J.SlowFn()
-	}
 	lo := s.FleetN
 	s.lastFleetLo, s.lastFleetN = lo, int(total)
 	out := &ec2.CreateFleetOutput{}
